@@ -53,6 +53,11 @@ func runC06(l *core.Ledger) {
 	l.With(map[string]string{"C02-T4": "C06-P2"}, func() { c02T4(l, r) })
 	l.With(map[string]string{"C10-N1": "C06-P7"}, func() { c10N1(l, r) })
 	c06P12(l, r, "C06-P12")
+	c06P14(l, r)
+	l.Rule("C06-P15", "what a node receives is the message that was sent: the decoder is given no limit or filter the encoder has no counterpart for (C13-D2 re-run) - DiscardUnknown drops the unknown fields of a relayed request, which are part of its value")
+	if gm, gum := r.fn("Codec.gorumsMarshal"), r.fn("Codec.gorumsUnmarshal"); gm != nil && gum != nil {
+		l.With(map[string]string{"C13-D2": "C06-P15"}, func() { c13D2(l, r, gm, gum) })
+	}
 	l.Rule("C06-P13", "ending one call does not cost other calls their messages: no event of a single call (the end of its context) resets the stream that carries the one-way messages of all calls on the node")
 	l.With(map[string]string{"C06-P13": "C06-P13"}, func() { c09W9(l, r) })
 	l.Rule("C06-P11", "a request whose context has ended is not written, and the stream is reset only for a write that is in progress when the context ends (C08-B3 re-run): a reset discards the one-way messages of other calls that the server has received and not yet read - calls that have returned, with contexts that never ended")
@@ -756,4 +761,55 @@ func c06P10(l *core.Ledger, r *rt) {
 		return
 	}
 	l.Bad("C06-P10", key, handoff.Pos(), "with WithNoSendWaiting the caller still hands its request to the node's sender through a blocking select on a queue that is unbuffered by default (WithSendBufferSize), and the sender (re)dials synchronously between two dequeues ("+dials+"): with a blocking dial (grpc.WithBlock) to a silent node every no-send-waiting call waits for the previous message's connection attempt - up to the dial timeout - although the option promises a return without waiting for the connection")
+}
+
+// c06P14: who may decide that a request is not written. sendMsg writes the
+// request it is handed unless the request's own context has ended; any other
+// early return (the call has "completed", the node "looks busy") withholds the
+// request from a node that is reachable, for a caller whose context is alive.
+func c06P14(l *core.Ledger, r *rt) {
+	l.Rule("C06-P14", "sendMsg returns without a stream write only on the ended edge of a test of the request's own ctx.Err(): every other path from its entry to a return passes SendMsg")
+	var fn *ssa.Function
+	for _, f := range allFuncs(l.Prog, r.pkg) {
+		if f.Parent() == nil && f.Signature.Recv() != nil && isNamed(f.Signature.Recv().Type(), core.RootModule, "channel") {
+			p, rs := f.Signature.Params(), f.Signature.Results()
+			if p.Len() == 1 && isNamed(p.At(0).Type(), core.RootModule, "request") && rs.Len() == 1 && isErrorType(rs.At(0).Type()) {
+				fn = f
+			}
+		}
+	}
+	if fn == nil {
+		l.Unknown("C06-P14", "anchor/sendMsg", token.NoPos, "no method of *channel with signature (request) error found")
+		return
+	}
+	key := fnKey(fn) + "/skips-write-only-for-ended-context"
+	req := fn.Params[1]
+	isReqCtx := sx.IsFieldNamed("ctx", sx.IsParam(req))
+	m := func(o sx.Origin) bool {
+		c, ok := o.V.(*ssa.Call)
+		return o.Kind == sx.KCall && ok && c.Call.IsInvoke() && c.Call.Method.Name() == "Err" && sx.All(sx.Origins(c.Call.Value), isReqCtx)
+	}
+	var ended []sx.Edge
+	sx.AllInstrs(fn, func(_ sx.Node, in ssa.Instruction) {
+		if ifi, ok := in.(*ssa.If); ok && isErrNonNil(ifi, m) != 0 {
+			ended = append(ended, errEdge(ifi, m, true))
+		}
+	})
+	isSend := func(n sx.Node) bool {
+		c, ok := n.Instr().(*ssa.Call)
+		return ok && c.Call.IsInvoke() && c.Call.Method.Name() == "SendMsg"
+	}
+	w, reach := sx.Reach(sx.Entry(fn), sx.IsReturn, sx.Query{BlockNode: isSend, BlockEdge: func(e sx.Edge) bool {
+		for _, x := range ended {
+			if x == e {
+				return true
+			}
+		}
+		return false
+	}})
+	if reach {
+		l.Bad("C06-P14", key, sx.PosOf(w.Instr()), "sendMsg can return without writing the request although the request's context has not ended: the node is reachable, the caller's context is alive, and the node never receives the message (for a call that has completed early this withholds the request from the nodes that were slower than the quorum)")
+	} else {
+		l.OK("C06-P14", key, fn.Pos(), "the only way round the stream write is the ended edge of the request's ctx.Err()")
+	}
 }
